@@ -1,6 +1,8 @@
-(* C15 model: bellows/multicast.py (Multicast._initialize / subscribe / unsubscribe) together with
-   the NCP's multicast table.  The host dict is an association list in insertion order, the free
-   set a list; the NCP table is a list of (group, endpoint) indexed by position. *)
+(* C15 model: bellows/multicast.py (Multicast._initialize / startup / subscribe / unsubscribe) together
+   with the NCP's multicast table.  The host dict is an association list in insertion order, the free
+   set a list; the NCP table is a list of (group, endpoint) indexed by position.  [op] / [step] are the
+   calls that issue at most one table write; [xop] / [xstep] add Multicast.startup(coordinator), one
+   call that issues several. *)
 From Coq Require Import ZArith NArith List Bool String.
 Import ListNotations.
 Require Import BV.gen.GenStatus BV.model.Status.
@@ -140,6 +142,50 @@ Fixpoint run (st : mstate) (ops : list op) : mstate :=
   | o :: ops' => run (st_of (step st o)) ops'
   end.
 
+(* ---- Multicast.startup(coordinator) ------------------------------------------------------ *)
+(* One call: the table scan (_initialize), then `await self.subscribe(group_id)` for the groups of the
+   coordinator's endpoints in iteration order, endpoint 0 skipped, duplicates kept (a group listed by
+   two endpoints is subscribed twice; the second call finds it subscribed unless the first write was
+   refused).  [calls] lists those groups, each with the index set.pop() returns should that call reach
+   the pop.  Every table write of the call gets the same answer [a].  The status a subscribe returns
+   is dropped (a refusal is logged by subscribe and start-up goes on); a subscribe that raises -- the
+   command timed out -- ends start-up there, the exception leaving the coroutine.  A start-up that
+   returns reports None, which is what [Init] reports (RStatus 0). *)
+Definition writes_of {A} (w : option A) : list A := match w with Some x => [x] | None => [] end.
+
+Inductive xop :=
+| Plain (o : op)
+| Startup (size_status : N) (read_status : list N) (calls : list (N * N)) (a : answer).
+
+Fixpoint startup_subs (st : mstate) (calls : list (N * N)) (a : answer)
+  : mstate * ret * list (N * N * N) :=
+  match calls with
+  | [] => (st, RStatus 0, [])
+  | (g, c) :: rest =>
+      let '(st1, r, w) := step st (Subscribe g c a) in
+      match r with
+      | RRaised => (st1, RRaised, writes_of w)
+      | RStatus _ =>
+          let '(st2, r2, ws) := startup_subs st1 rest a in
+          (st2, r2, writes_of w ++ ws)
+      end
+  end.
+
+(* state, what the call reports, the table writes it issued in order *)
+Definition xstep (st : mstate) (c : xop) : mstate * ret * list (N * N * N) :=
+  match c with
+  | Plain o => let '(st', r, w) := step st o in (st', r, writes_of w)
+  | Startup ss rs calls a => startup_subs (st_of (step st (Init ss rs))) calls a
+  end.
+
+Definition xst_of (x : mstate * ret * list (N * N * N)) : mstate := fst (fst x).
+
+Fixpoint xrun (st : mstate) (cs : list xop) : mstate :=
+  match cs with
+  | [] => st
+  | c :: cs' => xrun (xst_of (xstep st c)) cs'
+  end.
+
 (* ---- encoding for the correspondence ---------------------------------------------------- *)
 Definition bitmask (l : list N) : N := fold_left (fun acc i => acc + 2 ^ i) l 0.
 
@@ -162,12 +208,31 @@ Fixpoint trace (st : mstate) (ops : list op) : list Z :=
       (enc_ret r :: enc_write w) ++ enc_state st' ++ trace st' ops'
   end.
 
+(* all the writes of one call: their number, then (index, group, endpoint) each; for a call with at most
+   one write this is [enc_write] *)
+Definition enc_writes (ws : list (N * N * N)) : list Z :=
+  Z.of_nat (List.length ws)
+    :: flat_map (fun w => [Z.of_N (fst (fst w)); Z.of_N (snd (fst w)); Z.of_N (snd w)]) ws.
+
+Fixpoint xtrace (st : mstate) (cs : list xop) : list Z :=
+  match cs with
+  | [] => []
+  | c :: cs' =>
+      let '(st', r, ws) := xstep st c in
+      (enc_ret r :: enc_writes ws) ++ enc_state st' ++ xtrace st' cs'
+  end.
+
 Definition decode_answer (n : N) : answer :=
   if n =? 1000 then TimeoutLost else if n =? 1001 then TimeoutApplied else Ans n.
 (* op encoding: (kind, g, choice, answer, statuses)  kind 0=Init(size_status = g) 1=Sub 2=Unsub *)
 Definition decode_op (x : N * N * N * N * list N) : op :=
   let '(k, g, c, a, rs) := x in
   if k =? 0 then Init g rs else if k =? 1 then Subscribe g c (decode_answer a) else Unsubscribe g (decode_answer a).
+(* with the calls of a start-up: kind 3 = Startup(size_status = g, read statuses, (group, choice) per subscribe
+   call, answer); any other kind is the single call above *)
+Definition decode_xop (x : N * N * N * N * list N * list (N * N)) : xop :=
+  let '(k, g, c, a, rs, calls) := x in
+  if k =? 3 then Startup g rs calls (decode_answer a) else Plain (decode_op (k, g, c, a, rs)).
 
-Definition run_case (c : list (N * N) * list (N * N * N * N * list N)) : list Z :=
-  trace {| subs := []; avail := []; ncp := fst c |} (map decode_op (snd c)).
+Definition run_case (c : list (N * N) * list (N * N * N * N * list N * list (N * N))) : list Z :=
+  xtrace {| subs := []; avail := []; ncp := fst c |} (map decode_xop (snd c)).
